@@ -19,7 +19,8 @@ Actions == {
   [a |-> "input-connected",  fields |-> {"id", "client-address"}],
   [a |-> "output-connected", fields |-> {"id"}],
   [a |-> "refused-duplicate",fields |-> {"id"}],
-  [a |-> "refused-wrong-id", fields |-> {"id"}]
+  \* the notice about a wrong ID also names the ID it expected: the one the attached stream brought
+  [a |-> "refused-wrong-id", fields |-> {"id", "attached-id"}]
 }
 
 Tokens == {"%s", "%d", "%v", "%q", "%x", "%+v", "%#v", "%08.3f", "%[1]s", "%[2]*d", "%*d", "%%", "%20", "%25", "%41",
